@@ -279,9 +279,13 @@ class Controller(object):
                 rvec_list, obj_list, num_samples_run, exit_info, eval_num = eval_obj_results[k-1]
                 # Handle exit conditions (f < min obj value or maxfun reached)
                 if exit_info is not None:
-                    if num_samples_run > 0:
-                        self.model.save_point(x, np.mean(rvec_list[:num_samples_run, :], axis=0), num_samples_run, eval_num,
-                                              x_in_abs_coords=True)
+                    # All the points were evaluated above: offer this one and the remaining ones to the saved point before quitting
+                    for j in range(k, num_directions + 1):
+                        x = self.model.as_absolute_coordinates(xpts_added[j, :])
+                        rvec_list, obj_list, num_samples_run, _, eval_num = eval_obj_results[j-1]
+                        if num_samples_run > 0:
+                            self.model.save_point(x, np.mean(rvec_list[:num_samples_run, :], axis=0), num_samples_run, eval_num,
+                                                  x_in_abs_coords=True)
                     return exit_info  # return & quit
 
                 # Otherwise, add new results (increments model.npt_so_far)
@@ -385,9 +389,13 @@ class Controller(object):
                 rvec_list, obj_list, num_samples_run, exit_info, eval_num = eval_obj_results[ndirns]
                 # Handle exit conditions (f < min obj value or maxfun reached)
                 if exit_info is not None:
-                    if num_samples_run > 0:
-                        self.model.save_point(x, np.mean(rvec_list[:num_samples_run, :], axis=0), num_samples_run, eval_num,
-                                              x_in_abs_coords=True)
+                    # All the points were evaluated above: offer this one and the remaining ones to the saved point before quitting
+                    for j in range(ndirns, num_directions):
+                        x = self.model.as_absolute_coordinates(xopt + dirns[j, :])
+                        rvec_list, obj_list, num_samples_run, _, eval_num = eval_obj_results[j]
+                        if num_samples_run > 0:
+                            self.model.save_point(x, np.mean(rvec_list[:num_samples_run, :], axis=0), num_samples_run, eval_num,
+                                                  x_in_abs_coords=True)
                     return exit_info  # return & quit
 
                 # Otherwise, add new results (increments model.npt_so_far)
